@@ -48,7 +48,22 @@ def _resolve(path):
     return mod, attr, getattr(mod, attr)
 
 
-POST = {"stix2.pattern_visitor:create_pattern_object": str}
+def _parsed(r):
+    # class and text of what parse() returned (inputs of the enrolling check carry their ids and times: nothing is generated)
+    if hasattr(r, "serialize"):
+        text = "%s.%s %s" % (type(r).__module__, type(r).__name__, r.serialize(sort_keys=True))
+    else:
+        text = "%s %r" % (type(r).__name__, r)
+    # (a 2.1 observable without identifier-contributing content gets a random identifier: version-4 UUIDs say nothing here)
+    return re.sub(r"[0-9a-fA-F]{8}-[0-9a-fA-F]{4}-4[0-9a-fA-F]{3}-[89abAB][0-9a-fA-F]{3}-[0-9a-fA-F]{12}", "<uuid4>", text)
+
+
+def _sorted_list(r):
+    # (marking queries answer with lists built from sets: the order carries no meaning)
+    return sorted(r, key=str) if isinstance(r, (list, tuple, set)) else r
+
+
+POST = {"stix2.pattern_visitor:create_pattern_object": str, "stix2.parsing:parse": _parsed, "stix2.markings:get_markings": _sorted_list}
 
 
 def install(paths):
@@ -103,6 +118,14 @@ def main(argv):
     import_stix2()
     with open(argv[1]) as f:
         recs = json.load(f)
+    if len(argv) > 2:
+        # the standing registrations of the check (its setup) belong to every process that judges its content; what the
+        # workload itself did is the history under test
+        import importlib
+        from stixmon.ctx import Ctx
+        mod = importlib.import_module("stixmon.checks.%s" % argv[2].lower())
+        if hasattr(mod, "setup"):
+            mod.setup(Ctx(argv[2], "quick", int(argv[3]) if len(argv) > 3 else 0))
     out = [None] * len(recs)
     for k in range(len(recs) - 1, -1, -1):
         path, blobhex, _ = recs[k]
